@@ -203,8 +203,8 @@ def check_rt(run, thorough):
         # several uses of one layer (counts up to 3) with registry failures and cancelled callers, two images, all lookup kinds
         gens += [("mgr", "Img1x1", dict(MaxCnt="3"), None),
                  ("fuse", "Img1x1", dict(Fuse="TRUE", MaxCnt="2", Kinds='{"diff", "blob"}'), None),
-                 ("mgr", "Img2x1", dict(MaxCnt="1", AllTargets="TRUE"), None),
-                 ("fuse", "Img1x2", dict(Fuse="TRUE", Errors="FALSE", MaxCnt="1", Kinds='{"diff", "blob", "info"}'), 400)]
+                 ("mgr", "Img2x1", dict(MaxCnt="1", Errors="FALSE"), None),
+                 ("fuse", "Img1x2", dict(Fuse="TRUE", Errors="FALSE", MaxCnt="1", Kinds='{"diff", "blob", "info"}'), 300)]
     else:
         # several uses of one layer (counts up to 2) on the smallest image, manager and fuse
         gens += [("mgr", "Img1x1", dict(MaxCnt="2", Errors="FALSE", Cancels="FALSE"), None),
@@ -216,10 +216,12 @@ def check_rt(run, thorough):
                    for i, g in enumerate(gens)], 4)
     for i, (mode, img, kv, cap) in enumerate(gens):
         inits, edges = graphs[i]
+        if cap is None and len(edges) > 40000:
+            cap = 300          # never replay a graph of this size edge by edge (recorded as capped; exhaustive becomes False)
         walks, st = edge_cover(inits, edges, maxlen=80, rng=run.rng, extra_walks=100 if thorough else 10, max_walks=cap)
         log("[walks] %s %s %s: %s" % (mode, img, kv, st))
-        if st["covered"] != st["edges"] and cap is None:
-            exhaustive = False
+        if st["covered"] != st["edges"]:
+            exhaustive = False     # a capped graph is only partly covered: the tier is then not edge-complete
         out = os.path.join(run.scratch, "replay_%d_%s.ndjson" % (i, mode))
         jobs.append({"images": IMAGES[img], "img": img, "mode": mode, "out": out,
                      "walks": [[{k: v for k, v in s.items() if k in ("act", "r", "t", "kind", "fail", "cancel")} for s in w] for w in walks]})
